@@ -545,7 +545,7 @@ int main(int argc, char ** argv)
         r0.detail = "port ier=" + std::to_string(ier) + " reference ier=" + std::to_string(rier) + " " + r0.detail;
       } else if (ier == 0) {
         bool gaussmode = (mode == 10);
-        double tol     = gaussmode ? 3e-4 : 1e-6;
+        double tol     = gaussmode ? 3e-4 : 1e-5; // windows deep in a spectrum tail amplify the 8-digit literals of the reference
         bool toall_defined = !(mode == 9 || mode == 11 || mode == 12); // decay0's bb returns before computing it
         if (toall_defined && !close_rel(pars.toallevents, enrange_.toallevents, tol)) {
           r0.cls    = "toallevents";
